@@ -4,6 +4,7 @@ import (
 	"bytes"
 	"context"
 	"fmt"
+	"strings"
 	"testing/synctest"
 
 	"github.com/NethermindEth/juno/db"
@@ -50,6 +51,17 @@ type inject struct {
 	images       func(k int, info opInfo, mig int, img *memory.Database) // crash image after every commit (mig: migration executing)
 	logOps       bool
 	tag          string
+	readErr      *readTarget                         // one transient read error (class real/read-error)
+	onApplied    func(bit int, img *memory.Database) // root: right after the runner's commit that set an applied bit (img is live: read only)
+}
+
+// readTarget names the read that fails by CONTENT: the ord-th (0-based) scheduled read of this start
+// whose pipeline stage is `stage`; mode/nth as in readFault.
+type readTarget struct {
+	stage string
+	ord   int
+	mode  int
+	nth   int
 }
 
 // startRes is the observable outcome of one binary start (NewRunner + Run).
@@ -69,8 +81,15 @@ type startRes struct {
 	failInfo    opInfo
 	ctxErrAtEnd error
 	capped      bool
-	stages      []string    // stage of every released operation (index j-1)
-	migCommits  map[int]int // applied commits by the migration that was executing (-1: the runner)
+	stages      []string          // stage of every released operation (index j-1)
+	migCommits  map[int]int       // applied commits by the migration that was executing (-1: the runner)
+	readStages  map[string]int    // scheduled reads (other than snapshots) per stage
+	readNames   map[string]string // name of the first scheduled read of every stage
+	readArmed   bool              // the targeted read was scheduled
+	readArmedAt int               // its operation number
+	readInfo    opInfo            // what it was
+	readFired   bool              // ... and the error reached the code under test
+	readHow     string            // get has iter_open iter_value iter_stop
 }
 
 type env struct {
@@ -120,8 +139,16 @@ func (e *env) start(img *memory.Database, b binary, in inject) *startRes {
 	}
 	var commitActive []int // migration executing when commit k was released (index k-1)
 	res.migCommits = map[int]int{}
+	lastApplied := res.pre.CurrentVersion
 	p.afterCommit = func(k int, info opInfo) {
 		res.migCommits[commitActive[k-1]]++
+		if in.onApplied != nil && commitActive[k-1] == -1 && info.bucket == byte(db.SchemaMetadata) {
+			now := readMeta(c, img).CurrentVersion
+			for i := range now.Difference(lastApplied).Iter() {
+				in.onApplied(int(i), img)
+			}
+			lastApplied = now
+		}
 		if in.images != nil {
 			in.images(k, info, commitActive[k-1], img.Copy())
 		}
@@ -139,6 +166,29 @@ func (e *env) start(img *memory.Database, b binary, in inject) *startRes {
 		if in.cancelAtOp == j {
 			stageAtCancel = st
 		}
+	}
+	res.readStages, res.readNames = map[string]int{}, map[string]string{}
+	var armed *readFault
+	p.readFault = func(j int, info opInfo) *readFault {
+		if info.name == "snapshot" {
+			return nil
+		}
+		st := res.stages[j-1]
+		n := res.readStages[st]
+		res.readStages[st] = n + 1
+		if n == 0 {
+			res.readNames[st] = info.name
+		}
+		if t := in.readErr; t != nil && armed == nil && t.stage == st && t.ord == n {
+			mode := t.mode
+			if !strings.HasSuffix(info.name, "iter") {
+				mode = rfCall
+			}
+			armed = &readFault{mode: mode, nth: t.nth}
+			res.readArmed, res.readArmedAt, res.readInfo = true, j, info
+			return armed
+		}
+		return nil
 	}
 	var runner *migration.MigrationRunner
 	err, broken := e.s.run(p, func() error {
@@ -159,6 +209,9 @@ func (e *env) start(img *memory.Database, b binary, in inject) *startRes {
 	res.cancelFired, res.cancelInfo, res.cancelStage = e.s.cancelFired, e.s.cancelInfo, stageAtCancel
 	res.failFired, res.failInfo = e.s.commitFailed, e.s.failInfo
 	res.capped = e.s.capped
+	if armed != nil {
+		res.readFired, res.readHow = armed.fired()
+	}
 	res.post = readMeta(c, img)
 	res.postStates = readStates(c, img, maxEntries)
 	return res
